@@ -569,7 +569,7 @@ def exhaustive_cases():
 
 def run(chk):
     chk.prove([])
-    n = 900 if chk.thorough else 150
+    n = 900 if chk.thorough else 130
     cases = corpus_cases()
     ncorpus = len(cases)
     for i in range(n):
